@@ -17,6 +17,8 @@ from ECAgent.Environments import SpaceWorld, DiscreteWorld, LineWorld, GridWorld
 
 
 
+
+
 def _fresh(tag):
     """An equal but separately created int object (tags are compared by value, not by identity)."""
     return int(str(tag)) if type(tag) is int else tag
@@ -54,6 +56,15 @@ def _m(obj, new, old):
 
 TYPES = {"A": A, "B": B, "C": C, "D": D, "Z": Z}
 LISTED = ("A", "B", "C", "D")
+
+
+class _Herd(Agent):
+    """An agent class with class components (see op_agent)."""
+
+
+_Herd.add_class_component(A(None, None))
+_Herd.add_class_component(Z(None, None))
+
 BAD = -99999
 
 
@@ -239,7 +250,10 @@ class Driver:
     def op_agent(self, a, m, tag):
         a = tuple(a)
         mod = self.models[m][0]
-        ag = Agent(a[0], mod) if tag is None else Agent(a[0], mod, tag=_fresh(tag))
+        # every third agent is an instance of a subclass whose CLASS carries components of the types A and C (class components
+        # belong to the class; an agent carries the components attached to itself)
+        cls = _Herd if (a[1] + len(self.agents)) % 3 == 2 else Agent
+        ag = cls(a[0], mod) if tag is None else cls(a[0], mod, tag=_fresh(tag))
         self.agents[a] = ag
         self.emit({"op": "new_agent", "a": list(a), "m": m, "tag": ag.tag})
 
@@ -280,6 +294,16 @@ class Driver:
             exc = e
         self.emit({"op": "register", "a": list(a), "T": T}, exc)
 
+    def _args(self, vals):
+        """Positional arguments the way callers write them: trailing coordinates that are 0 (the documented default) are left
+        out every other time."""
+        self.ncalls = getattr(self, "ncalls", 0) + 1
+        vals = list(vals)
+        if self.ncalls % 2:
+            while vals and vals[-1] == 0:
+                vals.pop()
+        return vals
+
     def _raw(self, a, T, which):
         """SystemManager.register_component / deregister_component on their own, on the listings of the agent's own model -
         whether or not the agent is resident."""
@@ -318,7 +342,7 @@ class Driver:
                             real[ax] += 0.5
                         elif e > 0 and real[ax] > e - 1:
                             real[ax] -= 0.5
-                envr.add_agent(ag, *real)
+                envr.add_agent(ag, *self._args(real))
         except Exception as e:  # noqa: BLE001
             exc = e
         self.emit({"op": "join", "a": list(a), "m": m, "p": list(p) if self.models[m][1] != "plain" else []}, exc)
@@ -326,7 +350,7 @@ class Driver:
     def op_leave(self, m, i):
         exc = None
         try:
-            _m(self.env(m), "remove_agent", "removeAgent")(i)
+            _m(self.env(m), "remove_agent", "removeAgent")("".join(list(i)))      # an equal identifier, not the same string object
         except Exception as e:  # noqa: BLE001
             exc = e
         self.emit({"op": "leave", "m": m, "id": i}, exc)
@@ -336,7 +360,8 @@ class Driver:
         res = ["None", 0]
         try:
             ga = _m(self.env(m), "get_agent", "getAgent")
-            r = ga(i, throw_error=True) if strict else ga(i)
+            i2 = "".join(list(i))                                                 # an equal identifier, not the same string object
+            r = ga(i2, throw_error=True) if strict else ga(i2)
             if r is not None:
                 res = self.obj_of(r)
         except Exception as e:  # noqa: BLE001
@@ -353,7 +378,7 @@ class Driver:
             return
         exc = None
         try:
-            self.env(m).move(ag, *[self.to_py(m, v) for v in d])
+            self.env(m).move(ag, *self._args([self.to_py(m, v) for v in d]))
         except Exception as e:  # noqa: BLE001
             exc = e
         after = [0, 0, 0]
@@ -368,7 +393,7 @@ class Driver:
             return
         exc = None
         try:
-            self.env(m).move_to(ag, *[self.to_py(m, v) for v in p])
+            self.env(m).move_to(ag, *self._args([self.to_py(m, v) for v in p]))
         except Exception as e:  # noqa: BLE001
             exc = e
         self.emit({"op": "move_to", "a": list(a), "p": list(p)}, exc)
@@ -381,7 +406,7 @@ class Driver:
         exc = None
         res, res2 = [], []
         try:
-            args = [conv(v) for v in q]
+            args = self._args([conv(v) for v in q])
             kw = dict(leeway=conv(l), x_leeway=conv(al[0]), y_leeway=conv(al[1]), z_leeway=conv(al[2]))
             r = self.env(m).get_agents_at(*args, **kw)
             res = [self.obj_of(x) for x in r]
@@ -558,7 +583,7 @@ def random_run(rng, *, kinds=("plain",), n_models=2, n_ids=3, length=40, mods="c
         do(["model", m, cls, ext, wrap, late])
         if late:
             pending_install.append(m)
-    ids = ["x", "y", "z", "w", "v", "u"][:n_ids]
+    ids = ["x", "", "z", "0", "v", "u"][:n_ids]       # identifiers are strings - the empty one and "0" included
     objs = {m: [] for m in worlds}
     serial = {}
     cser = [0]
